@@ -865,6 +865,7 @@ MUTANTS += [
     M("history shallow-copied into the checkpoint", _B, "history_copy = copy.deepcopy(self.history)", "history_copy = copy.copy(self.history)", "C11.snapshot"),
 ]
 NEUTRALS = [
+    __import__("aspire_sa.rules.smcloop", fromlist=["HELPER_NEUTRAL"]).HELPER_NEUTRAL,
     M("flow preconditioning caches the (data-independent) dimension", "src/aspire/transforms.py", "self.flow = self._FlowClass(\n            dims=len(self.parameters),",
       "if getattr(self, \"_dims\", None) is None:\n            self._dims = len(self.parameters)\n        self.flow = self._FlowClass(\n            dims=self._dims,"),
     M("interrupt handler around the mutation step that only logs", _B, "samples = self.mutate(samples, beta)\n                if store_sample_history:",
